@@ -28,6 +28,11 @@ def run(tier, seed):
         pos = common.spec_to_code(chk, cfgs, make_real, relax=RELAX, neg_cfgs=neg, tag=tag)
         common.code_to_spec(chk, cfgs, make_real, tag=tag,
                             expect_feasible=(lambda c, pos=pos: bool(pos and pos['behs'].get(c['id']))))
+    # the split route: order books whose orders each lie inside one interval, so that in every interval some orders are outside its grid
+    from .c14 import SplitReal
+    scfgs = fam.renumber([c for c in fam.fam_split(thorough=th) if any(a['kind'] == 'orderbook' for a in c['assets'])])
+    pos = common.spec_to_code(chk, scfgs, lambda c: SplitReal(c), relax=RELAX, neg_cfgs=scfgs[seed % 2::2], tag='orders_split')
+    common.code_to_spec(chk, scfgs, lambda c: SplitReal(c), tag='orders_split', split='cfg', chk_fields=())
     common.long_horizon(chk, tier, seed, [('orders', fam.fam_orders)], RELAX, T_quick=8, T_thorough=12)
     chk.assumptions += ['fraction lattice {0, 1/2, 1}; full execution decided exactly by enumeration']
     return chk.finish(rule='order lists (buy/sell, overlapping, straddling, wholly outside) x full/partial execution x companion assets x prices',
